@@ -945,11 +945,21 @@ func (x *Exec) verify() {
 			}
 		}
 	}
+	if x.fc != nil {
+		for _, c := range x.fc.Cuts {
+			c.Hit = false
+		}
+	}
 	for _, b := range x.order {
 		x.execBlock(b)
 	}
 	if x.fc == nil {
 		return
+	}
+	for _, c := range x.fc.Cuts {
+		if !c.Hit {
+			ufail("site-not-found: cut load(.%s) of %s: the function no longer accesses that field", c.Field, x.fc.Name)
+		}
 	}
 	if len(x.rets) == 0 {
 		return
